@@ -184,8 +184,8 @@ func (sc *Scenario) run(pattern []bool, checkFix bool) *Exec {
 		restart := i < len(pattern) && pattern[i]
 		if restart || checkFix {
 			s2, sa2, ok := sc.reread(ex, eng, s, i+1)
-			if !ok {
-				return ex
+			if !ok && (restart || ex.Harness != "") {
+				return ex // a restart that cannot be carried out ends the execution (recorded in ex.ReadErrs)
 			}
 			if restart {
 				s, sa = s2, sa2
